@@ -832,7 +832,9 @@ def impl_sqanti_rows(kw):
         pos = pr.output_file.tell()
         pr.add_read_info(ra)
         p = pr.output_file.getvalue()[pos:].rstrip("\n").split("\t")
-        out.append([na(p[16]), na(p[38]), None if p[37] == "NA" else round(float(p[37]), 9)])
+        # the two bases "NA" at a contig end are a legal downstream sequence of a stranded model: only a '.' row prints the marker
+        seq = na(p[38]) if strand not in ("+", "-") else p[38]
+        out.append([na(p[16]), seq, None if p[37] == "NA" else round(float(p[37]), 9)])
     res = {"out": out, "memo": _memo(gi)}
     pr.output_file = _io.StringIO()      # __del__ closes it
     return res
